@@ -66,6 +66,8 @@ impl Src {
             _ => Src::new(seed, Mode::Scaled([40, 50, 58, 60, 62, 63, 64, 66][((h >> 8) % 8) as usize])),
         };
         s.slot = 0;
+        // indices 0..=4: every lane / column / minor index pair of every type, and a consistent panic beyond the type's range
+        s.index_range = 5;
         s
     }
     pub fn reseed(&mut self, seed: u64) {
